@@ -1,7 +1,7 @@
 (* C12/Props.v — property theorems only *)
 From Coq Require Import ZArith List Bool.
 From FV Require Import Base.Ser Base.Res C12.Model C12.Proofs C12.ModelSpec.
-From FV Require C12.ProofsSpec.
+From FV Require C12.ProofsSpec C12.ProofsArity.
 Import ListNotations.
 Open Scope Z_scope.
 
@@ -54,3 +54,11 @@ Theorem specialize_commands_keep_fill : forall ms cs outc,
   exists D out, interp_all cs = Ok D /\ interp_all outc = Ok out /\ fill_eq out D.
 Proof. exact ProofsSpec.specialize_commands_keep_fill. Qed.
 Print Assumptions specialize_commands_keep_fill.
+
+(* "emitted programs respect the operator arities of their format": every command the specialiser emits, in either mode and for
+   every maxstack, carries an argument count its Type 2 operator accepts (arity_legal, which a finite check in ProofsArity.v
+   compares with what the generaliser accepts for 0..40 arguments of every operator) *)
+Theorem specialize_arities : forall pt ms segs,
+  Forall (fun c : cmd => arity_legal (fst c) (length (snd c)) = true) (specialize pt ms segs).
+Proof. exact ProofsArity.specialize_arities. Qed.
+Print Assumptions specialize_arities.
